@@ -457,6 +457,7 @@ def run(ctx):
     if res is None or len(res.get("results", [])) != len(cases):
         ctx.broken("driver", "Go driver did not produce results: %s" % out[-1200:])
         return
+    ctx.cov["driver_goroutines_baseline_final"] = res.get("goroutines")
     shares_by_tag = {}
     stray = []
     for s in res["shares"]:
